@@ -83,7 +83,7 @@ func vc08IbltDigest(i *Iblt) uint64 {
 func vc08Digest(d Data) string {
 	switch v := d.(type) {
 	case *Xor:
-		return hex.EncodeToString(v[:8])
+		return hex.EncodeToString(v[:])
 	case *Iblt:
 		return strconv.FormatUint(vc08IbltDigest(v), 10)
 	}
@@ -101,6 +101,7 @@ type vc08Run struct {
 	tr     Tree
 	shelf  map[uint32][]byte
 	pages  map[uint32]Data // reference: page -> data folded by the harness itself
+	pagesX map[uint32][32]byte // XOR kind: the same reference kept byte-wise, independent of Xor/hash.SHA256Hash.Xor
 	contig bool            // every page below the highest one has been touched in order
 	npages uint32
 	nops   int
@@ -166,6 +167,27 @@ func (r *vc08Run) oracle(cs []uint32) string {
 	}
 	if s := check("Root", r.tr.Root(), 0, true); s != "" {
 		return s
+	}
+	if r.kind == "xor" {
+		xorOf := func(upto uint32, all bool) (w [32]byte) {
+			for p, d := range r.pagesX {
+				if all || p <= upto {
+					for i := range w {
+						w[i] ^= d[i]
+					}
+				}
+			}
+			return
+		}
+		if got := r.tr.Root().(*Xor); [32]byte(*got) != xorOf(0, true) {
+			return "FAIL:tree-digest-differs-from-reference-fold:Root(bytewise)"
+		}
+		for _, c := range cs {
+			d, _ := r.tr.ZeroTo(c)
+			if got := d.(*Xor); [32]byte(*got) != xorOf(c/r.ls, false) {
+				return fmt.Sprintf("FAIL:tree-digest-differs-from-reference-fold:ZeroTo(%d)(bytewise)", c)
+			}
+		}
 	}
 	for _, c := range cs {
 		d, lc := r.tr.ZeroTo(c)
@@ -244,9 +266,17 @@ func (r *vc08Run) exec(op *vc08Op, rng *rand.Rand) {
 			r.tr = New(r.proto(), r.ls)
 			r.shelf = map[uint32][]byte{}
 			r.pages = map[uint32]Data{}
+			r.pagesX = map[uint32][32]byte{}
 			r.contig, r.npages = true, 0
 		case "tins", "tdel":
 			ref, _ := hash.ParseHex(op.Ref)
+			{
+				w := r.pagesX[op.Clock/r.ls]
+				for i := range w {
+					w[i] ^= ref[i]
+				}
+				r.pagesX[op.Clock/r.ls] = w
+			}
 			op.Hk, op.Idx = r.key(ref)
 			p := op.Clock / r.ls
 			if op.Op == "tins" {
@@ -285,21 +315,30 @@ func (r *vc08Run) exec(op *vc08Op, rng *rand.Rand) {
 			r.tr = nt
 			// the reference now is what was persisted
 			r.pages = map[uint32]Data{}
+			r.pagesX = map[uint32][32]byte{}
 			for k, v := range r.shelf {
 				d := r.proto()
 				_ = d.UnmarshalBinary(v)
 				r.pages[k/r.ls] = d
+				if r.kind == "xor" && len(v) == 32 {
+					r.pagesX[k/r.ls] = [32]byte(v)
+				}
 			}
 			if len(r.shelf) == 0 {
 				r.npages = 0
 			}
 		case "trepl":
 			d := r.proto()
+			var w [32]byte
 			for i := range op.Refs {
 				ref, _ := hash.ParseHex(op.Refs[i].Ref)
 				op.Refs[i].Hk, op.Refs[i].Idx = r.key(ref)
 				d.Insert(ref)
+				for j := range w {
+					w[j] ^= ref[j]
+				}
 			}
+			r.pagesX[op.Clock/r.ls] = w
 			if err := r.tr.Replace(op.Clock, d.Clone()); err != nil {
 				line = "err:" + err.Error()
 				return
